@@ -44,7 +44,10 @@ Calls ==
 
 \* a few longer receivers for the filters that cut: room for every length argument and for the ellipsis
 LongStrs == { <<97, 98, 99, 100, 101, 102>>, <<97, 195, 169, 98, 240, 159, 152, 128, 99, 100>>, <<97, 32, 98, 98, 32, 99, 32, 100>> }
+\* ... and for the filters that search: runs of a character that a two-character separator / pattern overlaps itself on
+RunStrs == { <<120, 97, 97, 97>>, <<97, 97, 97>>, <<97, 97, 97, 97, 120>>, <<66, 97, 66, 97, 66, 97>>, <<97, 32, 32, 32, 98>> }
 Init == call \in Calls /\ s \in Strs \cup (IF call.name \in {"truncate", "slice", "truncatewords"} /\ "then" \notin DOMAIN call THEN LongStrs ELSE {})
+                                     \cup (IF call.name \in {"split", "remove", "remove_first", "replace", "replace_first"} THEN RunStrs ELSE {})
 Next == UNCHANGED vars
 
 R1 == Filter(call.name, Str(s), call.args)
